@@ -258,7 +258,7 @@ def e2(run, programs, tier, seed, known):
     with open(os.path.join(cdir, "Cargo.toml"), "w") as f:
         f.write('[package]\nname = "sv_c05_e2"\nversion = "0.0.0"\nedition = "2021"\n[dependencies]\nstrum = { path = "%s/strum", features = ["derive"] }\n[workspace]\n' % fw.REPO)
     import shutil
-    shutil.copy(os.path.join(fw.REPO, "Cargo.lock"), os.path.join(cdir, "Cargo.lock"))
+    shutil.copy(fw.lockfile(), os.path.join(cdir, "Cargo.lock"))
     src = ["#![allow(dead_code, non_camel_case_types)]"]
     for sp in specs:
         sp2 = __import__("copy").deepcopy(sp)
